@@ -45,6 +45,8 @@ pub struct Model {
     pub ids_ever: BTreeSet<usize>,
     pub corrupted: usize,
     pub allow_dup: bool,
+    /// placement invariants are not asserted (fault-injection runs re-read the placement from the storage)
+    pub relaxed: bool,
 }
 
 impl Model {
@@ -58,6 +60,7 @@ impl Model {
             ids_ever: BTreeSet::new(),
             corrupted: 0,
             allow_dup,
+            relaxed: false,
         };
         m.new_active();
         m
@@ -73,6 +76,9 @@ impl Model {
     }
 
     fn check_invariants(&self) {
+        if self.relaxed {
+            return;
+        }
         debug_assert!(self.closed.windows(2).all(|w| w[0] < w[1]));
         if let (Some(a), Some(c)) = (self.active, self.closed.last()) {
             debug_assert!(a > *c);
